@@ -50,6 +50,11 @@ CHECKS = {
    note="AST comments are collected from the Debug rendering so that no comment field can be missed. The formatter's comment emission outside the curated placements is one listed finding.",
    technique="runtime monitor with unique-id instrumentation of the input (exactly-once / unchanged / no-absorption)",
    design_ref="DESIGN.md section 3 C16"),
+ "C18": dict(
+   text="Process-boundary monitor: the cddl binary is rebuilt from /repo's working tree and run on generated invocations (11 schema kinds incl. .feature-dependent, first-rule-generic, groups-only, not compiling; 1..7 documents over --json/--cbor/--csv/--stdin, missing paths, --features lists, --csv-header, with and without --ci); every 'Validation of <path> is successful/failed' line and the exit status are compared with the library called by the harness on the same bytes with the same features; compile-cddl exit status against cddl_from_str.",
+   note="Documents are small fixed shapes (the verdict logic is C01/C02's concern); what varies is routing, feature threading, ordering, missing files, stdin sniffing. Two defects repaired by fix: commits (features dropped for --cbor files and stdin JSON; abort on schemas without a root type rule).",
+   technique="runtime monitor at the process boundary (argv/stdin -> log lines + exit status) against the library as oracle",
+   design_ref="DESIGN.md section 3 C18"),
  "C20": dict(
    text="Pointer-identity monitor: the harness walks the public AST, records the true parent of every node kind that has a Parent impl (36 child/parent pairs) by address and compares with child.parent(&pv); wrong answers are classified (parent of an equal earlier/later child, unrelated, none).",
    note="Two defects repaired by fix: commits (structural-equality de-duplication; generic arguments of ~name not walked). Value-copied nodes (Occur, Value) are not checked.",
